@@ -3,8 +3,10 @@ package main
 // C14: `range` over maps and the class of each loop body.
 
 import (
+	"fmt"
 	"go/ast"
 	"go/token"
+	"os"
 	"path/filepath"
 	"strings"
 )
@@ -18,6 +20,9 @@ type MapRange struct {
 }
 
 const mathPkg = "cosmossdk.io/math"
+
+// debugRanges (-debug-ranges) prints how every range statement was resolved.
+var debugRanges bool
 
 func (w *World) mapRanges() []MapRange {
 	var out []MapRange
@@ -44,7 +49,16 @@ func (w *World) mapRanges() []MapRange {
 				if fn != nil {
 					name = fn.Name.Name
 				}
-				switch w.rangeKind(rs.X, sc) {
+				kind := w.rangeKind(rs.X, sc)
+				if debugRanges {
+					ty := "?"
+					if t, ok := w.one(rs.X, sc, 0); ok {
+						ty = w.render(t.E)
+					}
+					fmt.Fprintf(os.Stderr, "range %s:%d %s: %s : %s -> %s\n", f.Rel, w.fset.Position(rs.Pos()).Line, name,
+						w.render(rs.X), ty, [...]string{"map", "not a map", "UNRESOLVED"}[kind])
+				}
+				switch kind {
 				case notMap:
 					return true
 				case unknownType:
